@@ -214,6 +214,53 @@ def r6_step_count(ctx):
                 rep.bad("C20.R6", C, it, "the step count mentions t0, t1 and dt but not the span t1 - t0 (nor a grid from t0 to t1)", f"{rel}:{loop.lineno}")
 
 
+def newton_row_counts(ctx):
+    """Row count of every keyword of Solution(...) in Newton.solve (also through a helper method): slices [:n] -> n, np.zeros((m, k))
+    -> m, the whole load_steps array -> self.nt; after the complete loop i + 1 = self.nt (C23.R6 decides the loop bounds)."""
+    from . import c23
+    rep = ctx.rep
+    ST = c23.ST
+    fn = ctx.repo.get(ST, "Newton.solve")
+    C = f"{ST}:Newton.solve"
+    loops = [n for n in ast.walk(fn) if isinstance(n, ast.For) and any(isinstance(c, ast.Call) and dotted(c.func) == "fsolve" for c in ast.walk(n))]
+    if len(loops) != 1 or not isinstance(loops[0].target, ast.Name):
+        raise AnalysisError(f"{C}: load-step loop not found")
+    loop = loops[0]
+    var = loop.target.id
+    for call, in_loop, subst, where in c23.solution_sites(ctx, fn, loop):
+        counts = {}
+        for k in call.keywords:
+            if k.arg in (None, "system", "solver_summary"):
+                continue
+            v = k.value
+            rc = None
+            if isinstance(v, ast.Subscript):
+                sl = v.slice.elts[0] if isinstance(v.slice, ast.Tuple) else v.slice
+                if isinstance(sl, ast.Slice) and sl.lower is None and sl.upper is not None:
+                    rc = subst(norm_src(sl.upper))
+            elif isinstance(v, ast.Call) and (dotted(v.func) or "").split(".")[-1] in ("zeros", "ones", "empty") and v.args and isinstance(v.args[0], ast.Tuple):
+                rc = subst(norm_src(v.args[0].elts[0]))
+            elif norm_src(v) == "self.load_steps":
+                rc = "self.nt"
+            if rc is None:
+                rc = "?" + norm_src(v)[:40]
+            rc = {"len(self.load_steps)": "self.nt"}.get(rc, rc)
+            if not in_loop and rc == f"{var} + 1":
+                rc = "self.nt"
+            counts[k.arg] = rc
+        vals = sorted(set(counts.values()))
+        label = f"{'early' if in_loop else 'final'} return{where}"
+        if len(vals) == 1 and not vals[0].startswith("?"):
+            rep.ok("C20.R8", C, f"{label}: every field has {vals[0]} rows ({', '.join(sorted(counts))})")
+        elif any(x.startswith("?") for x in vals):
+            rep.ok("C20.R8", C, f"{label}: row count of a field not readable ({counts}) (no verdict)", verdict="unknown", trivial=True)
+        else:
+            major = max(vals, key=lambda x: sum(1 for y in counts.values() if y == x))
+            odd = {k: v for k, v in counts.items() if v != major}
+            rep.bad("C20.R8", C, call, f"{label}: field(s) {sorted(odd)} have {sorted(set(odd.values()))} rows but the others have {major}: the returned fields do not have one row per "
+                    "returned load step", f"{ST}:{call.lineno}")
+
+
 def run(ctx):
     rep = ctx.rep
     rep.rule("C20.R1", "output lists are appended in lockstep, once per step", 30)
@@ -222,6 +269,8 @@ def run(ctx):
     rep.rule("C20.R4", "Solution fields are array expressions of the row lists", 40)
     rep.rule("C20.R5", "ScipyIVP / ScipyDAE field shapes", 8)
     rep.rule("C20.R6", "the step loop's iterable is a function of the initial time, the final time and the step", 4)
+    rep.rule("C20.R8", "static Newton: all fields of a returned Solution have the same number of rows (early, truncated return and final return)", 2)
+    newton_row_counts(ctx)
     rep.rule("C20.R7", "row k of every stored field still is what was stored at instant k (K11 may-alias analysis)", 8)
     from .. import alias
     S_ = "cardillo/solver/"
@@ -425,6 +474,10 @@ MUTANTS += [
          old="        self.t = np.arange(t0, self.t1 + self.dt, self.dt)", new="        self.t = np.arange(t0, self.t1, self.dt)", expect="C20.R6"),
     dict(id="c20-r6-4", what="DualStormerVerlet: one step too many", file="cardillo/solver/dual_stormer_verlet.py",
          old="        self.pbar = tqdm(np.arange(self.t0, self.t1, self.dt))", new="        self.pbar = tqdm(np.arange(self.t0, self.t1 + self.dt, self.dt))", expect="C20.R6"),
+]
+MUTANTS += [
+    dict(id="c20-r8-seed", canary=True, what="[seeded by sub-agent] Newton: truncated return keeps the full-length velocity field", file="cardillo/solver/statics.py",
+         old="                    u=np.zeros((i, self.nu)),", new="                    u=np.zeros((len(self.load_steps), self.nu)),", expect="C20.R8"),
 ]
 NEUTRAL = [
     dict(id="c20-n1", canary=True, what="Rattle: step count from the span (t1 - t0) / dt", file=RT,
